@@ -14,14 +14,22 @@
 //! re-runs with a failure injected at every call k < W (every kind, short writes, zero writes) and
 //! with mixed scripts.  Output lines:
 //!
-//!   prog<TAB>pid api clean chunks<TAB>w=<W> bytes=<n> sum=<checksum> same=<0|1>
-//!   case<TAB>pid api script<TAB>calls=.. acc=.. sum=.. dig=.. res=..<TAB>kind=.. prefix=.. full=.. after=.. fail=.. flush=.. outer=..
+//!   prog<TAB>pid api clean ops psyn<TAB>w=<W> bytes=<n> sum=<checksum> route=ok:<writes>:<captures> same=<0|1> …
+//!   case<TAB>pid api script<TAB>calls=.. acc=.. sum=.. dig=.. res=.. ops=..<TAB>kind=.. prefix=.. full=.. after=.. fail=.. flush=.. outer=..
+//!   null<TAB>expr<i><TAB>new_null=.. writes=.. nondiscard=.. res=..          (Expression::eval runs on Output::null)
+//!
+//! `ops` = the REAL output operations of the run as logged by `minijinja::verif_hooks::output`
+//! (root `Output` only; see `op_tokens`); for every failing run the harness checks that its log
+//! is the clean run's log cut at the failing write (`ops=<n>`, else `ops=MISMATCH@i`).
+//! `psyn` = for the structured family (`s<seed>_<i>`): the program as a term of the Lean model's
+//! structured layer (`-` otherwise).
 //!
 //! `res`: ok | wf:<kind>:<id> (ErrorKind::WriteFailure whose source() is an io::Error of that kind
 //! and identity) | wfnone (WriteFailure without io source) | other | panic.
 //!
 //! usage: c19 gen <quick|thorough> | c19 one <pid> <api> <script>
 use minijinja::value::{Object, Value};
+use minijinja::verif_hooks::output as vh;
 use minijinja::{context, Environment, Error, ErrorKind, State};
 use mjh::*;
 use std::cell::RefCell;
@@ -234,6 +242,8 @@ struct Prog {
     main: String,
     blocks: Vec<String>,
     fn_blocks: Vec<String>,
+    /// structured family: wire form of the program as a `Prog` term, expected `flat=` verdict
+    psyn: Option<(String, &'static str)>,
 }
 
 fn p(pid: &str, main: &str, templates: &[(&str, &str)], blocks: &[&str], fn_blocks: &[&str]) -> Prog {
@@ -243,6 +253,7 @@ fn p(pid: &str, main: &str, templates: &[(&str, &str)], blocks: &[&str], fn_bloc
         main: main.to_string(),
         blocks: blocks.iter().map(|s| s.to_string()).collect(),
         fn_blocks: fn_blocks.iter().map(|s| s.to_string()).collect(),
+        psyn: None,
     }
 }
 
@@ -517,7 +528,266 @@ fn gen_program(seed: u64, index: u64) -> Prog {
         }
         templates.push((main.clone(), src));
     }
-    Prog { pid: format!("g{seed}_{index}"), templates, main, blocks, fn_blocks: vec![] }
+    Prog { pid: format!("g{seed}_{index}"), templates, main, blocks, fn_blocks: vec![], psyn: None }
+}
+
+// ----- structured family: programs generated as terms of the model's `Prog` layer and unparsed
+
+#[derive(Clone, Debug)]
+enum PS {
+    Text(String),
+    Set(usize, Vec<PS>),
+    Use(usize, char),
+    /// capture the body, emit x(value): `how` selects the template construct
+    Filt(char, Vec<PS>, How),
+    Include(usize, Vec<PS>),
+    Loop(usize, Vec<PS>),
+    /// `{{ super() }}` with the parent block's body
+    Super(Vec<PS>),
+    Discard(Vec<PS>),
+    Fail,
+}
+
+#[derive(Clone, Debug)]
+enum How {
+    FilterBlock,
+    Macro(usize),
+    SuperCaptured,
+}
+
+const STEXTS: [&str; 10] = ["alpha ", "Beta", "<x>", " - ", "MiXed Case", "0", "li\nne", "(", ")", "zz top "];
+
+struct SGen {
+    rng: Rng,
+    next_var: usize,
+    partials: Vec<Vec<PS>>,
+    macros: Vec<Vec<PS>>,
+    failed: bool,
+}
+
+impl SGen {
+    fn seq(&mut self, depth: usize, visible: &mut Vec<usize>, in_macro: bool, allow_fail: bool) -> Vec<PS> {
+        let n = 1 + self.rng.below(4);
+        let mut out: Vec<PS> = vec![];
+        for _ in 0..n {
+            let choice = if depth == 0 { self.rng.below(3) } else { self.rng.below(12) };
+            let item = match choice {
+                0 | 1 => PS::Text(self.rng.pick(&STEXTS).to_string()),
+                2 | 3 if !visible.is_empty() => {
+                    let v = *self.rng.pick(visible);
+                    PS::Use(v, *self.rng.pick(&['i', 'i', 'u', 'l']))
+                }
+                4 | 5 if depth > 0 => {
+                    let v = self.next_var;
+                    self.next_var += 1;
+                    let body = self.seq(depth - 1, &mut visible.clone(), in_macro, allow_fail);
+                    visible.push(v);
+                    PS::Set(v, body)
+                }
+                6 if depth > 0 => {
+                    let body = self.seq(depth - 1, &mut visible.clone(), in_macro, allow_fail);
+                    PS::Filt(*self.rng.pick(&['u', 'l']), body, How::FilterBlock)
+                }
+                7 if depth > 0 && !in_macro => {
+                    let body = self.seq(depth - 1, &mut vec![], true, allow_fail);
+                    self.macros.push(body.clone());
+                    PS::Filt(*self.rng.pick(&['i', 'u', 'l']), body, How::Macro(self.macros.len() - 1))
+                }
+                8 if depth > 0 && !in_macro => {
+                    let body = self.seq(depth - 1, &mut visible.clone(), true, allow_fail);
+                    self.partials.push(body.clone());
+                    PS::Include(self.partials.len() - 1, body)
+                }
+                9 if depth > 0 => {
+                    let k = 1 + self.rng.below(3) as usize;
+                    PS::Loop(k, self.seq(depth - 1, &mut visible.clone(), in_macro, allow_fail))
+                }
+                10 if allow_fail && !self.failed && self.rng.chance(1, 6) => {
+                    self.failed = true;
+                    PS::Fail
+                }
+                _ => PS::Text(self.rng.pick(&STEXTS).to_string()),
+            };
+            // contiguous template text is one EmitRaw
+            if let (Some(PS::Text(prev)), PS::Text(t)) = (out.last_mut(), &item) {
+                prev.push_str(t);
+            } else {
+                out.push(item);
+            }
+        }
+        out
+    }
+}
+
+fn unparse(items: &[PS], out: &mut String) {
+    for it in items {
+        match it {
+            PS::Text(t) => out.push_str(t),
+            PS::Set(v, body) => {
+                out.push_str(&format!("{{% set v{v} %}}"));
+                unparse(body, out);
+                out.push_str("{% endset %}");
+            }
+            PS::Use(v, x) => out.push_str(&match x {
+                'u' => format!("{{{{ v{v}|upper }}}}"),
+                'l' => format!("{{{{ v{v}|lower }}}}"),
+                _ => format!("{{{{ v{v} }}}}"),
+            }),
+            PS::Filt(x, body, how) => {
+                let f = match x {
+                    'u' => "|upper",
+                    'l' => "|lower",
+                    _ => "",
+                };
+                match how {
+                    How::FilterBlock => {
+                        out.push_str(&format!("{{% filter {} %}}", &f[1..]));
+                        unparse(body, out);
+                        out.push_str("{% endfilter %}");
+                    }
+                    How::Macro(i) => out.push_str(&format!("{{{{ m{i}(){f} }}}}")),
+                    How::SuperCaptured => out.push_str(&format!("{{{{ super(){f} }}}}")),
+                }
+            }
+            PS::Include(i, _) => out.push_str(&format!("{{% include \"inc{i}.txt\" %}}")),
+            PS::Loop(k, body) => {
+                out.push_str(&format!("{{% for _i in range({k}) %}}"));
+                unparse(body, out);
+                out.push_str("{% endfor %}");
+            }
+            PS::Super(_) => out.push_str("{{ super() }}"),
+            PS::Discard(_) => unreachable!(),
+            PS::Fail => out.push_str("{{ items.foo.bar }}"),
+        }
+    }
+}
+
+fn wire(items: &[PS], toks: &mut Vec<String>) {
+    for it in items {
+        match it {
+            PS::Text(t) => toks.push(format!("T{}", hex(t.as_bytes()))),
+            PS::Set(v, body) => {
+                toks.push(format!("S{v}("));
+                wire(body, toks);
+                toks.push(")".into());
+            }
+            PS::Use(v, x) => toks.push(format!("U{v}{x}")),
+            PS::Filt(x, body, how) => {
+                toks.push(format!("F{x}("));
+                if matches!(how, How::SuperCaptured) {
+                    toks.push("N1(".into());
+                    wire(body, toks);
+                    toks.push(")".into());
+                } else {
+                    wire(body, toks);
+                }
+                toks.push(")".into());
+            }
+            PS::Include(_, body) => {
+                toks.push("N0(".into());
+                wire(body, toks);
+                toks.push(")".into());
+            }
+            PS::Loop(k, body) => {
+                toks.push(format!("L{k}("));
+                wire(body, toks);
+                toks.push(")".into());
+            }
+            PS::Super(body) => {
+                toks.push("N1(".into());
+                wire(body, toks);
+                toks.push(")".into());
+            }
+            PS::Discard(body) => {
+                toks.push("D(".into());
+                wire(body, toks);
+                toks.push(")".into());
+            }
+            PS::Fail => toks.push("X".into()),
+        }
+    }
+}
+
+fn gen_structured(seed: u64, index: u64) -> Prog {
+    let rng = Rng::new(seed.wrapping_mul(7000003).wrapping_add(index) ^ 0x5EED);
+    let mut g = SGen { rng, next_var: 0, partials: vec![], macros: vec![], failed: false };
+    let mut templates: Vec<(String, String)> = vec![];
+    let executed: Vec<PS>;
+    let mut main_src = String::new();
+    if g.rng.chance(1, 3) {
+        // base with blocks <- main.txt
+        let nb = 1 + g.rng.below(3) as usize;
+        let mut base_src = String::new();
+        let mut base_items: Vec<(Vec<PS>, Vec<PS>)> = vec![]; // (text before, parent body)
+        for i in 0..nb {
+            let before = g.seq(1, &mut vec![], true, false);
+            let parent = g.seq(2, &mut vec![], true, false);
+            unparse(&before, &mut base_src);
+            base_src.push_str(&format!("{{% block b{i} %}}"));
+            unparse(&parent, &mut base_src);
+            base_src.push_str("{% endblock %}");
+            base_items.push((before, parent));
+        }
+        templates.push(("base.txt".into(), base_src));
+        let top = g.seq(2, &mut vec![], false, false);
+        let mut overrides: Vec<Option<Vec<PS>>> = vec![];
+        let mut child_blocks = String::new();
+        for (i, (_, parent)) in base_items.iter().enumerate() {
+            if g.rng.chance(2, 3) {
+                let mut body = g.seq(2, &mut vec![], false, true);
+                match g.rng.below(3) {
+                    0 => body.push(PS::Super(parent.clone())),
+                    1 => body.insert(0, PS::Filt(*g.rng.pick(&['u', 'l']), parent.clone(), How::SuperCaptured)),
+                    _ => {}
+                }
+                child_blocks.push_str(&format!("{{% block b{i} %}}"));
+                unparse(&body, &mut child_blocks);
+                child_blocks.push_str("{% endblock %}");
+                overrides.push(Some(body));
+            } else {
+                overrides.push(None);
+            }
+        }
+        main_src.push_str("{% extends \"base.txt\" %}");
+        let mut top_src = String::new();
+        unparse(&top, &mut top_src);
+        let mut ex = vec![PS::Discard(top)];
+        for ((before, parent), ov) in base_items.into_iter().zip(overrides) {
+            ex.extend(before);
+            ex.extend(ov.unwrap_or(parent));
+        }
+        executed = ex;
+        // macros are declared before they are used (top-level code and blocks of the child)
+        for (i, body) in g.macros.iter().enumerate() {
+            main_src.push_str(&format!("{{% macro m{i}() %}}"));
+            unparse(body, &mut main_src);
+            main_src.push_str("{% endmacro %}");
+        }
+        main_src.push_str(&top_src);
+        main_src.push_str(&child_blocks);
+    } else {
+        let body = g.seq(3, &mut vec![], false, true);
+        for (i, mbody) in g.macros.iter().enumerate() {
+            main_src.push_str(&format!("{{% macro m{i}() %}}"));
+            unparse(mbody, &mut main_src);
+            main_src.push_str("{% endmacro %}");
+        }
+        unparse(&body, &mut main_src);
+        executed = body;
+    }
+    for (i, body) in g.partials.iter().enumerate() {
+        let mut src = String::new();
+        unparse(body, &mut src);
+        templates.push((format!("inc{i}.txt"), src));
+    }
+    templates.push(("main.txt".into(), main_src));
+    let mut toks = vec![];
+    wire(&executed, &mut toks);
+    let w = if toks.is_empty() { "-".to_string() } else { toks.join(".") };
+    // a macro renders into its own Output: its capture is not among the root's operations
+    // (`any`: the call may not be reached, so both verdicts occur)
+    let expect = if g.macros.is_empty() { "same" } else { "any" };
+    Prog { pid: format!("s{seed}_{index}"), templates, main: "main.txt".into(), blocks: vec![], fn_blocks: vec![], psyn: Some((w, expect)) }
 }
 
 // ------------------------------------------------------------------------------------------ running
@@ -526,14 +796,20 @@ thread_local! {
     static FN_PROBE: RefCell<Option<Probe>> = const { RefCell::new(None) };
     static FN_RESULT: RefCell<Option<(String, String)>> = const { RefCell::new(None) };
     static FN_REFERENCE: RefCell<Option<Result<String, Error>>> = const { RefCell::new(None) };
+    static FN_LOG: RefCell<Vec<vh::Event>> = const { RefCell::new(Vec::new()) };
+    /// 0: the function is not under test (it renders the block, output dropped); 1: it renders into
+    /// FN_PROBE; 2: it does the plain string render of the block as reference
+    static FN_MODE: std::cell::Cell<u8> = const { std::cell::Cell::new(0) };
 }
 
 /// template function: renders a block of the running template into the thread-local probe
 fn emit_block(state: &mut State, name: String) -> Result<String, Error> {
-    let probe = FN_PROBE.with(|p| p.borrow_mut().take());
-    match probe {
-        Some(mut probe) => {
+    match FN_MODE.with(|m| m.get()) {
+        1 => {
+            let mut probe = FN_PROBE.with(|p| p.borrow_mut().take()).unwrap_or_default();
+            vh::start();
             let rv = state.render_block_to_write(&name, &mut probe);
+            FN_LOG.with(|l| *l.borrow_mut() = vh::stop());
             FN_PROBE.with(|p| *p.borrow_mut() = Some(probe));
             let obs = match &rv {
                 Ok(()) => ("ok".to_string(), "-".to_string()),
@@ -542,12 +818,14 @@ fn emit_block(state: &mut State, name: String) -> Result<String, Error> {
             FN_RESULT.with(|r| *r.borrow_mut() = Some(obs));
             rv.map(|_| String::new())
         }
-        None => {
-            // reference mode: plain string render of the block
+        2 => {
+            vh::start();
             let rv = state.render_block(&name);
+            FN_LOG.with(|l| *l.borrow_mut() = vh::stop());
             FN_REFERENCE.with(|r| *r.borrow_mut() = Some(rv));
             Ok(String::new())
         }
+        _ => state.render_block(&name).map(|_| String::new()),
     }
 }
 
@@ -583,11 +861,87 @@ fn describe(e: &Error) -> String {
     }
 }
 
+fn target_code(t: &vh::Target) -> String {
+    match t {
+        vh::Target::Base => "s".to_string(),
+        vh::Target::Capture(d) => format!("k{d}"),
+        vh::Target::Discard(d) => format!("d{d}"),
+    }
+}
+
+/// The operations on the root `Output` (the first one created after the log was started) as
+/// tokens: `w<r>:<hex>[!]` write_str, `c<r>:<hex>[!]` write_char (`<r>` = `s` base writer, `k<d>`
+/// capture buffer / `d<d>` discard at capture-stack depth d, `!` = returned Err), `b0`/`b1`
+/// begin_capture(Capture/Discard), `e:<hex>`/`e-` end_capture → string/undefined, `n0`/`n1` an
+/// include/super evaluation starts, `l` it returned Ok, and `m:<i>` / `m?` / `m-`: an `Emit` of
+/// the i-th captured value (same shared buffer and content) / of another string / of a non-string.
+fn op_tokens(log: &[vh::Event]) -> Vec<String> {
+    let root = log.iter().find_map(|e| match e {
+        vh::Event::New { out, .. } => Some(*out),
+        _ => None,
+    });
+    let Some(root) = root else { return vec![] };
+    let mut toks = vec![];
+    let mut captures: Vec<(usize, Option<String>)> = vec![];
+    for ev in log {
+        match ev {
+            vh::Event::WriteStr { out, target, data, ok } if *out == root => {
+                toks.push(format!("w{}:{}{}", target_code(target), hex(data.as_bytes()), if *ok { "" } else { "!" }));
+            }
+            vh::Event::WriteChar { out, target, data, ok } if *out == root => {
+                toks.push(format!("c{}:{}{}", target_code(target), hex(data.to_string().as_bytes()), if *ok { "" } else { "!" }));
+            }
+            vh::Event::BeginCapture { out, discard } if *out == root => toks.push(format!("b{}", *discard as u8)),
+            vh::Event::EndCapture { out, value, ptr } if *out == root => {
+                captures.push((*ptr, value.clone()));
+                toks.push(match value {
+                    Some(v) => format!("e:{}", hex(v.as_bytes())),
+                    None => "e-".to_string(),
+                });
+            }
+            vh::Event::Emit { out, value, ptr } if *out == root => {
+                let idx = if *ptr != 0 { captures.iter().rposition(|(p, v)| p == ptr && v == value) } else { None };
+                toks.push(match (idx, value) {
+                    (Some(i), _) => format!("m:{i}"),
+                    (None, Some(_)) => "m?".to_string(),
+                    (None, None) => "m-".to_string(),
+                });
+            }
+            vh::Event::Enter { out, kind } if *out == root => toks.push(if *kind == "include" { "n0".into() } else { "n1".into() }),
+            vh::Event::Leave { out, ok, .. } if *out == root && *ok => toks.push("l".into()),
+            _ => {}
+        }
+    }
+    toks
+}
+
+/// `Ok(n)`: `run` is `clean` cut at a failing write (or all of it); n = operations without the `m` marks
+fn log_prefix(clean: &[String], run: &[String]) -> Result<usize, usize> {
+    // the `m` marks depend on buffer addresses; they are not operations
+    let clean: Vec<&String> = clean.iter().filter(|t| !t.starts_with('m')).collect();
+    let run: Vec<&String> = run.iter().filter(|t| !t.starts_with('m')).collect();
+    for (i, t) in run.iter().enumerate() {
+        let same = match clean.get(i) {
+            Some(c) => c == t || (i + 1 == run.len() && t.strip_suffix('!') == Some(c.as_str())),
+            None => false,
+        };
+        if !same {
+            return Err(i);
+        }
+    }
+    let failed = run.last().map(|t| t.ends_with('!')).unwrap_or(false);
+    if !failed && run.len() != clean.len() {
+        return Err(run.len());
+    }
+    Ok(run.len())
+}
+
 struct Obs {
     probe: Probe,
     res: String,
     kind: String,
     outer: String,
+    ops: Vec<String>,
 }
 
 /// run one API of one program against a scripted probe
@@ -597,21 +951,28 @@ fn run_api(env: &Environment<'static>, prog: &Prog, api: &str, script: Vec<Beh>,
     let result: Result<Result<(), Error>, String> = if api == "full" || api == "fmt" {
         guarded(|| {
             let tmpl = env.get_template(&prog.main)?;
+            vh::start();
             tmpl.render_captured_to(ctx(), &mut probe).map(|_| ())
         })
     } else if let Some(block) = api.strip_prefix("block:") {
         guarded(|| {
             let tmpl = env.get_template(&prog.main)?;
             let mut captured = tmpl.render_captured(ctx())?;
-            captured.with_state_mut(|state| state.render_block_to_write(block, &mut probe))
+            captured.with_state_mut(|state| {
+                vh::start();
+                state.render_block_to_write(block, &mut probe)
+            })
         })
     } else if api.starts_with("fn:") {
         FN_PROBE.with(|p| *p.borrow_mut() = Some(std::mem::take(&mut probe)));
         FN_RESULT.with(|r| *r.borrow_mut() = None);
+        FN_LOG.with(|l| l.borrow_mut().clear());
+        FN_MODE.with(|m| m.set(1));
         let out = guarded(|| {
             let tmpl = env.get_template(&prog.main)?;
             tmpl.render(ctx())
         });
+        FN_MODE.with(|m| m.set(0));
         probe = FN_PROBE.with(|p| p.borrow_mut().take()).unwrap_or_default();
         let inner = FN_RESULT.with(|r| r.borrow_mut().take());
         match out {
@@ -622,7 +983,10 @@ fn run_api(env: &Environment<'static>, prog: &Prog, api: &str, script: Vec<Beh>,
                     Err(e) => describe(e),
                 };
                 match inner {
-                    Some((res, kind)) => return Obs { probe, res, kind, outer },
+                    Some((res, kind)) => {
+                        let ops = op_tokens(&FN_LOG.with(|l| std::mem::take(&mut *l.borrow_mut())));
+                        return Obs { probe, res, kind, outer, ops };
+                    }
                     None => Ok(o.map(|_| ())),
                 }
             }
@@ -635,43 +999,83 @@ fn run_api(env: &Environment<'static>, prog: &Prog, api: &str, script: Vec<Beh>,
         Ok(Ok(())) => ("ok".to_string(), "-".to_string()),
         Ok(Err(e)) => (describe(e), format!("{:?}", e.kind())),
     };
-    Obs { probe, res, kind, outer }
+    let log = if api.starts_with("fn:") { FN_LOG.with(|l| std::mem::take(&mut *l.borrow_mut())) } else { vh::stop() };
+    Obs { probe, res, kind, outer, ops: op_tokens(&log) }
 }
 
-/// the string the plain render of the same API returns (None: it fails)
-fn reference(env: &Environment<'static>, prog: &Prog, api: &str) -> Option<String> {
+/// the string the plain render of the same API returns (None: it fails) and its operation log
+fn reference(env: &Environment<'static>, prog: &Prog, api: &str) -> (Option<String>, Vec<String>) {
+    let mut fn_mode = false;
     let r: Result<Result<String, Error>, String> = if api == "full" || api == "fmt" {
-        guarded(|| env.get_template(&prog.main)?.render(ctx()))
+        guarded(|| {
+            let tmpl = env.get_template(&prog.main)?;
+            vh::start();
+            tmpl.render(ctx())
+        })
     } else if let Some(block) = api.strip_prefix("block:") {
         guarded(|| {
             let tmpl = env.get_template(&prog.main)?;
             let mut captured = tmpl.render_captured(ctx())?;
-            captured.with_state_mut(|state| state.render_block(block))
+            captured.with_state_mut(|state| {
+                vh::start();
+                state.render_block(block)
+            })
         })
     } else {
+        fn_mode = true;
         FN_PROBE.with(|p| *p.borrow_mut() = None);
         FN_REFERENCE.with(|r| *r.borrow_mut() = None);
+        FN_LOG.with(|l| l.borrow_mut().clear());
+        FN_MODE.with(|m| m.set(2));
         let _ = guarded(|| env.get_template(&prog.main)?.render(ctx()));
+        FN_MODE.with(|m| m.set(0));
         match FN_REFERENCE.with(|r| r.borrow_mut().take()) {
             Some(r) => Ok(r),
-            None => return None,
+            None => Err("function not called".to_string()),
         }
     };
+    let log = if fn_mode { FN_LOG.with(|l| std::mem::take(&mut *l.borrow_mut())) } else { vh::stop() };
+    let ops = op_tokens(&log);
     match r {
-        Ok(Ok(s)) => Some(s),
-        _ => None,
+        Ok(Ok(s)) => (Some(s), ops),
+        _ => (None, ops),
     }
 }
 
-fn model_fields(o: &Obs) -> String {
+/// `Environment::render_str` / `render_named_str` against `Template::render` (single-template programs)
+fn string_apis(env: &Environment<'static>, prog: &Prog, api: &str, refstr: &Option<String>) -> &'static str {
+    if prog.templates.len() != 1 || !(api == "full" || api == "fmt") {
+        return "na";
+    }
+    let src = &prog.templates[0].1;
+    // `render_str` names the template "<string>": no auto escaping, like a .txt template
+    let a = if prog.main.ends_with(".txt") { guarded(|| env.render_str(src, ctx())).ok().and_then(|r| r.ok()) } else { refstr.clone() };
+    let b = guarded(|| env.render_named_str(&prog.main, src, ctx())).ok().and_then(|r| r.ok());
+    if &a == refstr && &b == refstr { "same" } else { "differ" }
+}
+
+fn model_fields(o: &Obs, clean_ops: &[String]) -> String {
     format!(
-        "calls={} acc={} sum={} dig={} res={}",
+        "calls={} acc={} sum={} dig={} res={} ops={}",
         o.probe.calls.len(),
         o.probe.accepted.len(),
         sum_bytes(&o.probe.accepted),
         digest(&o.probe.calls),
-        o.res
+        o.res,
+        match log_prefix(clean_ops, &o.ops) {
+            Ok(n) => n.to_string(),
+            Err(i) => format!("MISMATCH@{i}"),
+        }
     )
+}
+
+fn ops_field(ops: &[String]) -> String {
+    if ops.is_empty() { "-".to_string() } else { ops.join(",") }
+}
+
+/// strip the `ok` marks so that logs of different base writers can be compared
+fn plain_tokens(ops: &[String]) -> Vec<&str> {
+    ops.iter().filter(|t| !t.starts_with('m')).map(|t| t.strip_suffix('!').unwrap_or(t)).collect()
 }
 
 fn oracle_fields(o: &Obs, reference: &[u8]) -> String {
@@ -761,14 +1165,6 @@ fn apis_of(prog: &Prog) -> Vec<String> {
     v
 }
 
-fn chunks_hex(chunks: &[Vec<u8>]) -> String {
-    if chunks.is_empty() {
-        "-".to_string()
-    } else {
-        chunks.iter().map(|c| hex(c)).collect::<Vec<_>>().join(",")
-    }
-}
-
 fn run_program(prog: &Prog, tier: &str, rng: &mut Rng, out: &mut impl io::Write) {
     for api in apis_of(prog) {
         let env = match make_env(prog, api == "fmt") {
@@ -779,7 +1175,7 @@ fn run_program(prog: &Prog, tier: &str, rng: &mut Rng, out: &mut impl io::Write)
             }
         };
         let clean = run_api(&env, prog, &api, vec![], true);
-        let refstr = reference(&env, prog, &api);
+        let (refstr, plain_ops) = reference(&env, prog, &api);
         let clean_tag = if clean.res == "ok" { "ok" } else { "err" };
         // reference bytes: the plain render's string; if the plain render fails, what the clean run delivered
         let refbytes: Vec<u8> = match &refstr {
@@ -791,25 +1187,101 @@ fn run_program(prog: &Prog, tier: &str, rng: &mut Rng, out: &mut impl io::Write)
             None => (clean.res != "ok" && clean.res != "panic") as u8,
         };
         let w = clean.probe.calls.len();
+        // the sink calls of a clean run are exactly the non-empty writes routed to the base writer
+        let base_chunks: Vec<Vec<u8>> = clean
+            .ops
+            .iter()
+            .filter(|t| t.starts_with("ws:") || t.starts_with("cs:"))
+            .map(|t| unhex(&t[3..]))
+            .filter(|c| !c.is_empty())
+            .collect();
+        let n_writes = clean.ops.iter().filter(|t| t.starts_with('w') || t.starts_with('c')).count();
+        let n_ends = clean.ops.iter().filter(|t| t.starts_with('e')).count();
+        let n_capemit = clean.ops.iter().filter(|t| t.starts_with("m:")).count();
         writeln!(
             out,
-            "prog\t{} {} {} {}\tw={} bytes={} sum={} same={} res={} plain={}",
+            "prog\t{} {} {} {} {}\tw={} bytes={} sum={} route=ok:{}:{} same={} res={} plain={} plainops={} sinkcalls={} strapis={} flat={} capemit={}",
             prog.pid,
             api,
             clean_tag,
-            chunks_hex(&clean.probe.chunks),
+            ops_field(&clean.ops),
+            prog.psyn.as_ref().map(|p| p.0.as_str()).unwrap_or("-"),
             w,
             clean.probe.accepted.len(),
             sum_bytes(&clean.probe.accepted),
+            n_writes,
+            n_ends,
             same,
             clean.res,
             if refstr.is_some() { "ok" } else { "err" },
+            if plain_tokens(&plain_ops) == plain_tokens(&clean.ops) { "same" } else { "differ" },
+            if base_chunks == clean.probe.chunks { "same" } else { "differ" },
+            string_apis(&env, prog, &api, &refstr),
+            prog.psyn.as_ref().map(|p| p.1).unwrap_or("na"),
+            n_capemit,
         )
         .unwrap();
         for script in scripts_for(w, clean.probe.accepted.len(), rng, tier) {
             let o = run_api(&env, prog, &api, parse_script(&script).expect("script"), false);
-            writeln!(out, "case\t{} {} {}\t{}\t{}", prog.pid, api, script, model_fields(&o), oracle_fields(&o, &refbytes)).unwrap();
+            writeln!(out, "case\t{} {} {}\t{}\t{}", prog.pid, api, script, model_fields(&o, &clean.ops), oracle_fields(&o, &refbytes)).unwrap();
         }
+    }
+}
+
+const NULL_EXPRS: [&str; 8] = [
+    "name|upper", "items|join(',')", "[name, html]|string", "'%s'|format(obj)", "mac('x')", "nested|tojson", "(name ~ html)|escape", "items|map('string')|list|string",
+];
+
+/// `Expression::eval` evaluates on `Output::null()`: whatever is written during the evaluation
+/// (macros called from the expression render into their own buffer) never reaches a writer
+fn run_null(out: &mut impl io::Write) {
+    let mut env = Environment::new();
+    env.add_template_owned("mac.txt".to_string(), "{% macro mac(a) %}<{{ a }}>{% endmacro %}".to_string()).unwrap();
+    let tmpl = env.get_template("mac.txt").unwrap();
+    let captured = tmpl.render_captured(ctx()).unwrap();
+    let mac = captured.state().lookup("mac").unwrap_or_default();
+    for (i, e) in NULL_EXPRS.iter().enumerate() {
+        let mac = mac.clone();
+        vh::start();
+        let r = guarded(|| {
+            let expr = env.compile_expression(e)?;
+            expr.eval(context! { mac => mac, ..ctx() })
+        });
+        let log = vh::stop();
+        let root = log.iter().find_map(|ev| match ev {
+            vh::Event::New { out, null } => Some((*out, *null)),
+            _ => None,
+        });
+        let (mut writes, mut nondiscard, mut other_outputs) = (0, 0, 0);
+        for ev in &log {
+            match ev {
+                vh::Event::WriteStr { out: o, target, .. } | vh::Event::WriteChar { out: o, target, .. } => {
+                    if Some(*o) == root.map(|r| r.0) {
+                        writes += 1;
+                        if !matches!(target, vh::Target::Discard(_)) {
+                            nondiscard += 1;
+                        }
+                    } else {
+                        other_outputs += 1;
+                    }
+                }
+                _ => {}
+            }
+        }
+        writeln!(
+            out,
+            "null\texpr{i}\tnew_null={} writes={} nondiscard={} elsewhere={} res={}",
+            root.map(|r| r.1 as u8).unwrap_or(2),
+            writes,
+            nondiscard,
+            other_outputs,
+            match &r {
+                Ok(Ok(_)) => "ok",
+                Ok(Err(_)) => "err",
+                Err(_) => "panic",
+            }
+        )
+        .unwrap();
     }
 }
 
@@ -817,6 +1289,9 @@ fn find_program(pid: &str) -> Option<Prog> {
     if let Some(r) = pid.strip_prefix('g') {
         let (seed, index) = r.split_once('_')?;
         Some(gen_program(seed.parse().ok()?, index.parse().ok()?))
+    } else if let Some(r) = pid.strip_prefix('s') {
+        let (seed, index) = r.split_once('_')?;
+        Some(gen_structured(seed.parse().ok()?, index.parse().ok()?))
     } else {
         fixed_programs().into_iter().find(|p| p.pid == pid)
     }
@@ -836,11 +1311,17 @@ fn main() {
             for prog in fixed_programs() {
                 run_program(&prog, &tier, &mut rng, &mut out);
             }
-            let n = if tier == "thorough" { 2000 } else { 450 };
+            let n = if tier == "thorough" { 1500 } else { 300 };
             for i in 0..n {
                 let prog = gen_program(seed, i);
                 run_program(&prog, &tier, &mut rng, &mut out);
             }
+            let n = if tier == "thorough" { 1500 } else { 300 };
+            for i in 0..n {
+                let prog = gen_structured(seed, i);
+                run_program(&prog, &tier, &mut rng, &mut out);
+            }
+            run_null(&mut out);
         }
         Some("one") => {
             let (pid, api, script) = (&args[2], &args[3], &args[4]);
@@ -850,20 +1331,32 @@ fn main() {
             }
             let env = make_env(&prog, api == "fmt").expect("compile");
             let clean = run_api(&env, &prog, api, vec![], true);
-            let refstr = reference(&env, &prog, api);
+            let (refstr, _) = reference(&env, &prog, api);
             writeln!(out, "# plain render: {:?}", refstr).unwrap();
             let refbytes: Vec<u8> = match &refstr {
                 Some(s) => s.as_bytes().to_vec(),
                 None => clean.probe.accepted.clone(),
             };
             let clean_tag = if clean.res == "ok" { "ok" } else { "err" };
-            writeln!(out, "prog\t{} {} {} {}\tw={} res={}", prog.pid, api, clean_tag, chunks_hex(&clean.probe.chunks), clean.probe.calls.len(), clean.res).unwrap();
+            writeln!(
+                out,
+                "prog\t{} {} {} {} {}\tw={} res={}",
+                prog.pid,
+                api,
+                clean_tag,
+                ops_field(&clean.ops),
+                prog.psyn.as_ref().map(|p| p.0.as_str()).unwrap_or("-"),
+                clean.probe.calls.len(),
+                clean.res
+            )
+            .unwrap();
             let o = run_api(&env, &prog, api, parse_script(script).expect("script"), true);
+            writeln!(out, "# operations of this run: {}", ops_field(&o.ops)).unwrap();
             for (i, ((off, res), chunk)) in o.probe.calls.iter().zip(o.probe.chunks.iter()).enumerate() {
                 writeln!(out, "# call {i}: offered {off} {:?} -> {res:?}", String::from_utf8_lossy(chunk)).unwrap();
             }
             writeln!(out, "# delivered: {:?}", String::from_utf8_lossy(&o.probe.accepted)).unwrap();
-            writeln!(out, "case\t{} {} {}\t{}\t{}", prog.pid, api, script, model_fields(&o), oracle_fields(&o, &refbytes)).unwrap();
+            writeln!(out, "case\t{} {} {}\t{}\t{}", prog.pid, api, script, model_fields(&o, &clean.ops), oracle_fields(&o, &refbytes)).unwrap();
         }
         _ => {
             eprintln!("usage: c19 gen <quick|thorough> | c19 one <pid> <api> <script>");
